@@ -157,14 +157,17 @@ CHECKS = {
              "replaced by their awaited values (C13_awaited), hence equal traces and outcomes for sync-valued contracts "
              "(C13_same_observation); on a sync callable a coroutine condition/capture is rejected without truth test "
              "(C13_sync_rejects_*). Tie: skeleton parity lemmas over the wrappers regenerated from /repo (async with "
-             "await erased = sync, five pairs) + paired correspondence (each case rendered with def and async def).",
+             "await erased = sync, five pairs) + paired correspondence (each case rendered with def and async def) + "
+             "programs of coroutine functions and async methods that await each other (run cluster), judged by the "
+             "model, which knows no difference between def and async def (spec_C11).",
         note=TB, design="DESIGN.md section 6 C13"),
     "C14": dict(
         text="Theorems: with satisfied contracts the caller receives the body's very object or exception, the body is "
              "entered and receives what Python binds (C14_result_unchanged, _exception_unchanged, _body_entered, "
              "_identical_arguments). Tie: correspondence (spec_C14), decorator stacks with foreign functools.wraps "
              "decorators: one checker, all foreign decorators kept in order, original at the end (spec_C14_stacks), "
-             "members resolve as declared along the MRO (spec_C04), selection (spec_C03_selection); nested calls incl. async methods: without a violation the bodies entered and the outcome are those of the bare program (spec_C14_run).",
+             "members resolve as declared along the MRO (spec_C04), selection (spec_C03_selection); nested calls incl. async methods: without a violation the bodies entered and the outcome are those of the bare program (spec_C14_run); "
+             "a scenario probe: a foreign decorator that passes __wrapped__ on but no attributes.",
         note=TB + "Partial (correspondence only): metadata preservation (__name__, signature, abstractness, "
              "coroutine-ness) is a functools/inspect fact. The single-checker clause is checked, not yet proved.",
         design="DESIGN.md section 6 C14"),
